@@ -377,3 +377,33 @@ func Recover(e, rec *Expr, labels ...string) *Expr {
 func Class(chars string, ranges ...rune) *Expr {
 	return &Expr{K: KClass, Chars: []rune(chars), Ranges: ranges}
 }
+
+// StateReachable reports whether a state block is reachable from the given rules (the
+// optimizer removes rules that nothing reachable refers to).
+func (g *Grammar) StateReachable(from []string) bool {
+	seen := map[string]bool{}
+	found := false
+	var visit func(name string)
+	visit = func(name string) {
+		if seen[name] {
+			return
+		}
+		seen[name] = true
+		r := g.Rule(name)
+		if r == nil {
+			return
+		}
+		Walk(r.Expr, func(e *Expr) {
+			switch e.K {
+			case KState:
+				found = true
+			case KRef:
+				visit(e.Name)
+			}
+		})
+	}
+	for _, n := range from {
+		visit(n)
+	}
+	return found
+}
